@@ -22,7 +22,7 @@ MANIFEST = dict(
 genparams = sc.genparams
 
 CONFIGS = ([(m, "-", None) for m in sc.MODES] + [(m, "slow", None) for m in sc.MODES] +
-           [(m, "shared,slow", "asynctimerchan=0") for m in sc.MODES])
+           [(m, "shared,slow", "asynctimerchan=0") for m in sc.MODES] + [("blockpool", "-", None)])
 
 
 def run(ctx):
